@@ -314,6 +314,8 @@ func (p *Program) parseSpecs(pkg *packages.Package) {
 				p.Macros[m.Name] = m
 			case strings.HasPrefix(t, "induct "):
 				rest := strings.TrimSpace(t[7:])
+				var lemmaUses []string
+				rest, lemmaUses = splitLemmaUses(rest)
 				i := strings.Index(rest, ":")
 				if i < 0 {
 					p.specErr(l.where, "induct needs 'name: bodyMacro'")
@@ -321,14 +323,22 @@ func (p *Program) parseSpecs(pkg *packages.Package) {
 				}
 				body := strings.TrimSpace(rest[i+1:])
 				src := fmt.Sprintf("forallI(lo, forallI(hi, imp(lo <= hi, %s(lo, hi))))", body)
+				if strings.HasPrefix(body, "up ") {
+					// induct name: up Body  - one-parameter body, induction upwards from 0
+					body = strings.TrimSpace(body[3:])
+					src = fmt.Sprintf("forallI(k, imp(0 <= k, %s(k)))", body)
+					body = "up " + body
+				}
 				e, err := parser.ParseExpr(src)
 				if err != nil {
 					p.specErr(l.where, "induct: "+err.Error())
 					continue
 				}
-				p.Axioms = append(p.Axioms, Axiom{Name: strings.TrimSpace(rest[:i]), C: Clause{Expr: e, Text: src, Where: l.where}, Short: short, Lemma: true, Induct: body})
+				p.Axioms = append(p.Axioms, Axiom{Name: strings.TrimSpace(rest[:i]), C: Clause{Expr: e, Text: src, Where: l.where, Uses: lemmaUses}, Short: short, Lemma: true, Induct: body})
 			case strings.HasPrefix(t, "axiom "), strings.HasPrefix(t, "lemma "):
 				rest := strings.TrimSpace(t[6:])
+				var lemmaUses []string
+				rest, lemmaUses = splitLemmaUses(rest)
 				i := strings.Index(rest, ":")
 				if i < 0 {
 					p.specErr(l.where, "axiom needs 'name: expr'")
@@ -339,7 +349,7 @@ func (p *Program) parseSpecs(pkg *packages.Package) {
 					p.specErr(l.where, "axiom: "+err.Error())
 					continue
 				}
-				p.Axioms = append(p.Axioms, Axiom{Name: strings.TrimSpace(rest[:i]), C: Clause{Expr: e, Text: strings.TrimSpace(rest[i+1:]), Where: l.where}, Short: short, Lemma: strings.HasPrefix(t, "lemma ")})
+				p.Axioms = append(p.Axioms, Axiom{Name: strings.TrimSpace(rest[:i]), C: Clause{Expr: e, Text: strings.TrimSpace(rest[i+1:]), Where: l.where, Uses: lemmaUses}, Short: short, Lemma: strings.HasPrefix(t, "lemma ")})
 			default:
 				if cur == nil {
 					p.specErr(l.where, "clause outside of a func: "+t)
@@ -640,4 +650,19 @@ func parseMacro(s string) (*Macro, error) {
 	}
 	m.Body = e
 	return m, nil
+}
+
+// splitLemmaUses cuts a trailing "@uses a, b" off a lemma / induct clause.
+func splitLemmaUses(rest string) (string, []string) {
+	i := strings.LastIndex(rest, "@uses ")
+	if i < 0 {
+		return rest, nil
+	}
+	var names []string
+	for _, n := range strings.Split(rest[i+6:], ",") {
+		if n = strings.TrimSpace(n); n != "" {
+			names = append(names, n)
+		}
+	}
+	return strings.TrimSpace(rest[:i]), names
 }
